@@ -471,9 +471,9 @@ class BaseParser:
 
             if field.is_no_input(value, options=options):
                 # no input field does not take input from __init__
-                # but can still apply default
+                # but can still apply default (not over a value another spelling of the field has provided)
                 default = field.get_default(options, defer=False)
-                if not unprovided(default):
+                if not unprovided(default) and name not in result:
                     result[name] = default
                 continue
 
@@ -562,6 +562,9 @@ class BaseParser:
                             name = field.attname if as_attname else field.name
                             context.handle_error(exc.AliasConflictError(item=name, value=v))
                             continue
+                        if field and field.is_no_input(v, options=options):
+                            # a later variant that is not taken as input does not displace the earlier one
+                            continue
                 _data[k] = v
             data = _data
 
@@ -613,6 +616,11 @@ class BaseParser:
                 default = field.get_default(options, defer=False)
                 if not unprovided(default):
                     result[name] = default
+                elif field.is_required(options=options):
+                    # a value that is not taken as input (callable no_input) leaves a required field absent,
+                    # like in data_first_parse
+                    unprovided_fields.add(name)
+                    context.handle_error(exc.AbsenceError(item=name))
                 continue
 
             parsed = field.parse_value(value, context=context)
